@@ -195,6 +195,10 @@ case("c16-fast-prepare-enforces", "break", ["C16"], [(NK, "        get_nickname_
 case("c16-thread-local-memo", "break", ["C16"], [(PROF + "common.rs", "pub const SPACE: char = '\\u{0020}';", "pub const SPACE: char = '\\u{0020}';\n\nthread_local! {\n    static LAST_WAS_UPPER: std::cell::Cell<bool> = const { std::cell::Cell::new(false) };\n}"), (PROF + "common.rs", "    match s.find(|c: char| c.to_lowercase().ne(std::iter::once(c))) {\n        None => Ok(s),", "    match s.find(|c: char| c.to_lowercase().ne(std::iter::once(c))) {\n        None if !LAST_WAS_UPPER.with(|c| c.replace(false)) => Ok(s),\n        None => Ok(s.to_lowercase().into()),")], "per-thread memo changes behaviour of the next call")
 case("c16-clock", "break", ["C16"], [(PW, "        let s = self.prepare(s)?;\n        let s = self.additional_mapping_rule(s)?;", "        let s = self.prepare(s)?;\n        if std::time::SystemTime::now().duration_since(std::time::UNIX_EPOCH).map(|d| d.as_secs() % 86400 == 0).unwrap_or(false) {\n            return Ok(s);\n        }\n        let s = self.additional_mapping_rule(s)?;")], "clock-dependent result")
 case("c16-refcell-profile", "break", ["C16"], [(PW, "pub struct OpaqueString(FreeformClass);", "pub struct OpaqueString(FreeformClass, std::marker::PhantomData<std::cell::Cell<u8>>);"), (PW, "        Self(FreeformClass::default())", "        Self(FreeformClass::default(), std::marker::PhantomData)")], "profile no longer Sync: the lazy static form would not even build — and the type rule names it")
+_ONCELOCK_NK = [(NK, "    lazy_static! {\n        static ref NICKNAME: Nickname = Nickname::default();\n    }\n    &NICKNAME\n", "    static NICKNAME: std::sync::OnceLock<Nickname> = std::sync::OnceLock::new();\n    NICKNAME.get_or_init(Nickname::default)\n"), (NK, "use lazy_static::lazy_static;\n", "")]
+case("c16-keep-oncelock-singleton", "keep", ["C16", "C06", "C07", "C01"], _ONCELOCK_NK, "the lazy_static singleton written with std's OnceLock: same value, same once-only initialisation")
+case("c16-keep-lazylock-singleton", "keep", ["C16", "C06", "C07", "C01"], [(NK, "    lazy_static! {\n        static ref NICKNAME: Nickname = Nickname::default();\n    }\n    &NICKNAME\n", "    static NICKNAME: std::sync::LazyLock<Nickname> = std::sync::LazyLock::new(Nickname::default);\n    &NICKNAME\n"), (NK, "use lazy_static::lazy_static;\n", "")], "the same with std's LazyLock")
+case("c16-oncelock-remembers-first-call", "break", ["C16"], [(NK, "    let s = s.into();\n    match find_disallowed_space(&s) {", "    let s = s.into();\n    static FIRST_LEN: std::sync::OnceLock<usize> = std::sync::OnceLock::new();\n    if *FIRST_LEN.get_or_init(|| s.len()) > 64 {\n        return Ok(s);\n    }\n    match find_disallowed_space(&s) {")], "a OnceLock that is not a profile singleton: the first call's input length decides whether later calls trim")
 case("c16-keep-const-table", "keep", ["C16"], [(PROF + "common.rs", "pub const SPACE: char = '\\u{0020}';", "pub const SPACE: char = '\\u{0020}';\n\n#[allow(dead_code)]\nstatic ASCII_SPACES: [char; 2] = [' ', '\\t'];")], "an immutable Freeze static is not hidden state")
 
 # ------------------------------------------------------------------ C01
@@ -273,6 +277,12 @@ case("c10-revert-d4", "break", ["C10"], [(CM, "    match s.find(|c: char| c.to_l
 case("c10-ascii-trigger", "break", ["C10"], [(CM, "    match s.find(|c: char| c.to_lowercase().ne(std::iter::once(c))) {", "    match s.find(|c: char| c.is_ascii_uppercase()) {")], "non-ASCII capitals before the first ASCII capital are kept")
 case("c10-first-char-only", "break", ["C10"], [(CM, "                    c.to_lowercase().for_each(|x| res.push(x));", "                    if let Some(x) = c.to_lowercase().next() {\n                        res.push(x);\n                    }")], "only the first character of a multi-character lowercase mapping is kept (U+0130)", expect_key=["discipline|map"])
 case("c10-until-next-lower", "break", ["C10"], [(CM, "                if c.is_lowercase() {\n                    res.push(c);\n                } else {", "                if c.is_lowercase() {\n                    res.push(c);\n                    done = true;\n                } else if done {\n                    res.push(c);\n                } else {"), (CM, "            for c in s[pos..].chars() {\n                if c.is_lowercase() {", "            let mut done = false;\n            for c in s[pos..].chars() {\n                if c.is_lowercase() {")], "mapping stops at the first lowercase character", expect_key=["stateless"])
+# private helpers are located by role (pv/roles.py): a rename alone is silent, a rename together with a slip is
+# reported, and a role that two functions could fill is not guessed
+_RENAME_CM = [(CM, "pub fn case_mapping_rule<'a, T>(s: T)", "pub fn lowercase_rule<'a, T>(s: T)")] + [(CM, "let res = case_mapping_rule(", "let res = lowercase_rule(")] * 5 + [(PROF + "nicknames.rs", "        common::case_mapping_rule(s)", "        common::lowercase_rule(s)"), (PROF + "usernames.rs", "        common::case_mapping_rule(s)", "        common::lowercase_rule(s)")]
+case("c10-keep-renamed-helper", "keep", ["C10", "C04", "C07", "C08"], _RENAME_CM, "common::case_mapping_rule renamed; same function")
+case("c10-renamed-helper-ascii-trigger", "break", ["C10", "C07"], _RENAME_CM + [(CM, "    match s.find(|c: char| c.to_lowercase().ne(std::iter::once(c))) {", "    match s.find(|c: char| c.is_ascii_uppercase()) {")], "the helper is renamed and its trigger only sees ASCII capitals")
+case("c10-renamed-helper-nickname-unbound", "break", ["C10"], _RENAME_CM[:-2] + [(PROF + "usernames.rs", "        common::case_mapping_rule(s)", "        common::lowercase_rule(s)"), (PROF + "nicknames.rs", "        common::case_mapping_rule(s)", "        Ok(s.into())")], "the helper is renamed and Nickname no longer applies it")
 case("c10-keep-flat-map", "keep", ["C10"], [(CM, "                if c.is_lowercase() {\n                    res.push(c);\n                } else {\n                    c.to_lowercase().for_each(|x| res.push(x));\n                }", "                c.to_lowercase().for_each(|x| res.push(x));")], "no is_lowercase shortcut: same function")
 
 # ------------------------------------------------------------------ C11
